@@ -1,0 +1,237 @@
+//go:build verif
+
+// Contracts for package redblacktree (comment-only; read by /verif/engine, never compiled into the package).
+
+package redblacktree
+
+//@ -- ghost state (DESIGN.md §3.4): the in-order node sequence of the tree; per node its owner tree, its in-order
+//@ -- position pos and the interval [a,b] of positions occupied by its subtree; per key its position (rank)
+//@ ghost field Tree.nodes map like Root
+//@ ghost field Tree.rank mapfrom Comparator int
+//@ ghost field Node.tr ref
+//@ ghost field Node.pos int
+//@ ghost field Node.a int
+//@ ghost field Node.b int
+
+//@ -- strict weak order on the three-way comparator c
+//@ pred SWO(c, w) := (forall x like w, y like w :: (c(x, y) < 0 <==> c(y, x) > 0))
+//@     && (forall x like w, y like w, z like w :: c(x, y) <= 0 && c(y, z) <= 0 ==> c(x, z) <= 0)
+
+//@ -- local shape condition of node x of tree t (intrinsic definition: no recursion, no reachability)
+//@ pred LC(t, x) := x.tr == t ==> x != nil && x.a <= x.pos && x.pos <= x.b && 0 <= x.pos && x.pos < t.size && t.nodes[x.pos] == x
+//@     && (x.Left == nil ==> x.a == x.pos) && (x.Left != nil ==> x.Left.tr == t && x.Left.Parent == x && x.Left.a == x.a && x.Left.b == x.pos - 1)
+//@     && (x.Right == nil ==> x.b == x.pos) && (x.Right != nil ==> x.Right.tr == t && x.Right.Parent == x && x.Right.a == x.pos + 1 && x.Right.b == x.b)
+//@     && (x.Parent == nil ==> x == t.Root && x.a == 0 && x.b == t.size - 1)
+//@     && (x.Parent != nil ==> x.Parent.tr == t && (x.Parent.Left == x || x.Parent.Right == x))
+//@ pred ShapeInv(t) := t != nil && t.size >= 0 && (t.size == 0 <==> t.Root == nil) && (t.Root != nil ==> t.Root.tr == t && t.Root.Parent == nil)
+//@     && (forall x like t.Root :: LC(t, x))
+//@     && (forall i :: 0 <= i && i < t.size ==> t.nodes[i].tr == t && t.nodes[i].pos == i)
+//@ -- keys strictly ascending in in-order; rank maps every key equivalent to a stored key to that key's position
+//@ pred KeyAt(t, i) := t.nodes[i].Key
+//@ pred OrderInv(t) := t.Comparator != nil && SWO(t.Comparator, argof(t.Comparator, 0))
+//@     && (forall i, j :: 0 <= i && i < j && j < t.size ==> t.Comparator(t.nodes[i].Key, t.nodes[j].Key) < 0)
+//@     && (forall k like argof(t.Comparator, 0), i :: 0 <= i && i < t.size && t.Comparator(k, t.nodes[i].Key) == 0 ==> t.rank[k] == i)
+//@ pred Inv(t) := ShapeInv(t) && OrderInv(t)
+//@ -- abstract view: the ascending entry sequence (KeyAt(i), ValAt(i)), and the finite map Has/Val it denotes
+//@ pred ValAt(t, i) := t.nodes[i].Value
+//@ pred Has(t, k) := 0 <= t.rank[k] && t.rank[k] < t.size && t.Comparator(k, t.nodes[t.rank[k]].Key) == 0
+//@ pred Val(t, k) := t.nodes[t.rank[k]].Value
+
+//@ func NewWith
+//@   requires comparator != nil && SWO(comparator, argof(comparator, 0))
+//@   modifies nothing
+//@   ensures [C01 C02 C15 C17] fresh(result) && Inv(result) && result.size == 0 && result.Comparator == comparator
+
+//@ func Tree.lookup
+//@   requires Inv(tree)
+//@   modifies nothing
+//@   ensures [C01] result != nil ==> result.tr == tree && tree.Comparator(key, result.Key) == 0
+//@   ensures [C01] result == nil ==> (forall i :: 0 <= i && i < tree.size ==> tree.Comparator(key, tree.nodes[i].Key) != 0)
+//@   loop 1:
+//@     invariant node != nil ==> node.tr == tree
+//@     invariant node != nil ==> (forall i :: 0 <= i && i < node.a ==> tree.Comparator(key, tree.nodes[i].Key) > 0)
+//@     invariant node != nil ==> (forall i :: node.b < i && i < tree.size ==> tree.Comparator(key, tree.nodes[i].Key) < 0)
+//@     invariant node == nil ==> (forall i :: 0 <= i && i < tree.size ==> tree.Comparator(key, tree.nodes[i].Key) != 0)
+//@     decreases ite(node != nil, node.b - node.a + 1, 0)
+
+//@ func Tree.Get
+//@   requires Inv(tree)
+//@   modifies nothing
+//@   ensures [C01 C17 C18] found == Has(tree, key) && (found ==> value == Val(tree, key)) && (!found ==> value == zero(value))
+
+//@ func Tree.GetNode
+//@   requires Inv(tree)
+//@   modifies nothing
+//@   ensures [C01 C17 C18] (result != nil) == Has(tree, key) && (result != nil ==> result == tree.nodes[tree.rank[key]])
+
+//@ func Tree.Empty
+//@   requires Inv(tree)
+//@   modifies nothing
+//@   ensures [C15 C17 C18] result == (tree.size == 0)
+
+//@ func Tree.Size
+//@   requires Inv(tree)
+//@   modifies nothing
+//@   ensures [C01 C15 C17 C18] result == tree.size && result >= 0
+
+//@ func Tree.Clear
+//@   requires tree != nil && tree.Comparator != nil && SWO(tree.Comparator, argof(tree.Comparator, 0))
+//@   modifies tree.Root, tree.size
+//@   modifies each x like tree.Root where x.tr == tree : x.tr
+//@   at exit: all Node.tr := \x like tree.Root => ite(x.tr == tree, nil, x.tr)
+//@   ensures [C01 C15 C17] Inv(tree) && tree.size == 0 && tree.Comparator == old(tree.Comparator)
+
+//@ func Tree.Left
+//@   requires ShapeInv(tree)
+//@   modifies nothing
+//@   ensures [C02 C17 C18] (tree.size == 0 ==> result == nil) && (tree.size > 0 ==> result == tree.nodes[0])
+//@   loop 1:
+//@     invariant (current != nil ==> current.tr == tree && current.a == 0) && (parent != nil ==> parent.tr == tree && parent.a == 0 && parent.Left == current) && (parent == nil ==> current == tree.Root)
+//@     decreases ite(current != nil, current.b - current.a + 1, 0)
+
+//@ func Tree.Right
+//@   requires ShapeInv(tree)
+//@   modifies nothing
+//@   ensures [C02 C17 C18] (tree.size == 0 ==> result == nil) && (tree.size > 0 ==> result == tree.nodes[tree.size - 1])
+//@   loop 1:
+//@     invariant (current != nil ==> current.tr == tree && current.b == tree.size - 1) && (parent != nil ==> parent.tr == tree && parent.b == tree.size - 1 && parent.Right == current) && (parent == nil ==> current == tree.Root)
+//@     decreases ite(current != nil, current.b - current.a + 1, 0)
+
+//@ -- Floor: the greatest entry whose key is not above `key`
+//@ func Tree.Floor
+//@   requires Inv(tree)
+//@   modifies nothing
+//@   ensures [C02 C17 C18] found ==> floor != nil && floor.tr == tree && tree.Comparator(floor.Key, key) <= 0
+//@     && (forall i :: floor.pos < i && i < tree.size ==> tree.Comparator(tree.nodes[i].Key, key) > 0)
+//@   ensures [C02 C17 C18] !found ==> floor == nil && (forall i :: 0 <= i && i < tree.size ==> tree.Comparator(tree.nodes[i].Key, key) > 0)
+//@   loop 1:
+//@     invariant (found ==> floor != nil && floor.tr == tree && tree.Comparator(key, floor.Key) > 0) && (node != nil ==> node.tr == tree)
+//@     invariant node != nil ==> node.a == ite(found, floor.pos + 1, 0)
+//@     invariant node != nil ==> (forall i :: node.b < i && i < tree.size ==> tree.Comparator(key, tree.nodes[i].Key) < 0)
+//@     invariant node == nil ==> (forall i :: ite(found, floor.pos + 1, 0) <= i && i < tree.size ==> tree.Comparator(key, tree.nodes[i].Key) < 0)
+//@     decreases ite(node != nil, node.b - node.a + 1, 0)
+
+//@ -- Ceiling: the least entry whose key is not below `key`
+//@ func Tree.Ceiling
+//@   requires Inv(tree)
+//@   modifies nothing
+//@   ensures [C02 C17 C18] found ==> ceiling != nil && ceiling.tr == tree && tree.Comparator(ceiling.Key, key) >= 0
+//@     && (forall i :: 0 <= i && i < ceiling.pos ==> tree.Comparator(tree.nodes[i].Key, key) < 0)
+//@   ensures [C02 C17 C18] !found ==> ceiling == nil && (forall i :: 0 <= i && i < tree.size ==> tree.Comparator(tree.nodes[i].Key, key) < 0)
+//@   loop 1:
+//@     invariant (found ==> ceiling != nil && ceiling.tr == tree && tree.Comparator(key, ceiling.Key) < 0) && (node != nil ==> node.tr == tree)
+//@     invariant node != nil ==> node.b == ite(found, ceiling.pos - 1, tree.size - 1)
+//@     invariant node != nil ==> (forall i :: 0 <= i && i < node.a ==> tree.Comparator(key, tree.nodes[i].Key) > 0)
+//@     invariant node == nil ==> (forall i :: 0 <= i && i <= ite(found, ceiling.pos - 1, tree.size - 1) ==> tree.Comparator(key, tree.nodes[i].Key) > 0)
+//@     decreases ite(node != nil, node.b - node.a + 1, 0)
+
+//@ func Tree.Keys
+//@   requires ShapeInv(tree)
+//@   modifies nothing
+//@   ensures [C01 C02 C15 C16 C17 C18] fresh(arr(result)) && len(result) == tree.size && (forall j :: 0 <= j && j < tree.size ==> result[j] == KeyAt(tree, j))
+//@   loop 1:
+//@     invariant ItInv(it) && fresh(it) && it.tree == tree && Cur(it) == i - 1 && 0 <= i && len(keys) == tree.size && fresh(arr(keys))
+//@     invariant forall j :: 0 <= j && j < i ==> keys[j] == KeyAt(tree, j)
+//@     decreases tree.size - i
+
+//@ func Tree.Values
+//@   requires ShapeInv(tree)
+//@   modifies nothing
+//@   ensures [C01 C02 C15 C16 C17 C18] fresh(arr(result)) && len(result) == tree.size && (forall j :: 0 <= j && j < tree.size ==> result[j] == ValAt(tree, j))
+//@   loop 1:
+//@     invariant ItInv(it) && fresh(it) && it.tree == tree && Cur(it) == i - 1 && 0 <= i && len(values) == tree.size && fresh(arr(values))
+//@     invariant forall j :: 0 <= j && j < i ==> values[j] == ValAt(tree, j)
+//@     decreases tree.size - i
+
+// ---- iterator: a cursor over positions -1..n of the in-order sequence (C08) ----
+
+//@ pred Cur(it) := ite(it.position == 0, 0 - 1, ite(it.position == 2, it.tree.size, it.node.pos))
+//@ pred ItInv(it) := it != nil && it.tree != nil && ShapeInv(it.tree) && 0 <= it.position && it.position <= 2 && (it.position == 1 ==> it.node.tr == it.tree)
+
+//@ func Tree.Iterator
+//@   requires ShapeInv(tree)
+//@   modifies nothing
+//@   ensures [C08 C17 C18] fresh(result) && ItInv(result) && result.tree == tree && Cur(result) == 0 - 1
+
+//@ func Iterator.Next
+//@   requires ItInv(iterator)
+//@   modifies iterator.node, iterator.position
+//@   ensures [C08 C17] ItInv(iterator) && Cur(iterator) == min(old(Cur(iterator)) + 1, iterator.tree.size)
+//@   ensures [C08] result == (0 <= Cur(iterator) && Cur(iterator) < iterator.tree.size)
+//@   loop 1:
+//@     invariant iterator.node.tr == iterator.tree && iterator.node.a == old(iterator.node.pos) + 1 && old(iterator.position) == 1 && old(iterator.node.tr) == iterator.tree
+//@     decreases iterator.node.b - iterator.node.a
+//@   loop 2:
+//@     invariant iterator.node.tr == iterator.tree && iterator.node.b == old(iterator.node.pos) && old(iterator.position) == 1 && old(iterator.node.tr) == iterator.tree
+//@     decreases iterator.tree.size - (iterator.node.b - iterator.node.a)
+
+//@ func Iterator.Prev
+//@   requires ItInv(iterator)
+//@   modifies iterator.node, iterator.position
+//@   ensures [C08 C17] ItInv(iterator) && Cur(iterator) == max(old(Cur(iterator)) - 1, 0 - 1)
+//@   ensures [C08] result == (0 <= Cur(iterator) && Cur(iterator) < iterator.tree.size)
+//@   loop 1:
+//@     invariant iterator.node.tr == iterator.tree && iterator.node.b == old(iterator.node.pos) - 1 && old(iterator.position) == 1 && old(iterator.node.tr) == iterator.tree
+//@     decreases iterator.node.b - iterator.node.a
+//@   loop 2:
+//@     invariant iterator.node.tr == iterator.tree && iterator.node.a == old(iterator.node.pos) && old(iterator.position) == 1 && old(iterator.node.tr) == iterator.tree
+//@     decreases iterator.tree.size - (iterator.node.b - iterator.node.a)
+
+//@ func Iterator.Key
+//@   requires ItInv(iterator) && iterator.position == 1
+//@   modifies nothing
+//@   ensures [C08 C17 C18] result == KeyAt(iterator.tree, Cur(iterator))
+
+//@ func Iterator.Value
+//@   requires ItInv(iterator) && iterator.position == 1
+//@   modifies nothing
+//@   ensures [C08 C17 C18] result == ValAt(iterator.tree, Cur(iterator))
+
+//@ func Iterator.Node
+//@   requires ItInv(iterator)
+//@   modifies nothing
+//@   ensures [C08 C17 C18] result == iterator.node
+
+//@ func Iterator.Begin
+//@   requires ItInv(iterator)
+//@   modifies iterator.node, iterator.position
+//@   ensures [C08 C17] ItInv(iterator) && Cur(iterator) == 0 - 1
+
+//@ func Iterator.End
+//@   requires ItInv(iterator)
+//@   modifies iterator.node, iterator.position
+//@   ensures [C08 C17] ItInv(iterator) && Cur(iterator) == iterator.tree.size
+
+//@ func Iterator.First
+//@   requires ItInv(iterator)
+//@   modifies iterator.node, iterator.position
+//@   ensures [C08 C17] ItInv(iterator) && Cur(iterator) == 0 && result == (iterator.tree.size > 0)
+
+//@ func Iterator.Last
+//@   requires ItInv(iterator)
+//@   modifies iterator.node, iterator.position
+//@   ensures [C08 C17] ItInv(iterator) && Cur(iterator) == iterator.tree.size - 1 && result == (iterator.tree.size > 0)
+
+//@ func Iterator.NextTo
+//@   requires ItInv(iterator) && f != nil
+//@   modifies iterator.node, iterator.position
+//@   ensures [C08 C17] ItInv(iterator)
+//@   ensures [C08] found: result ==> old(Cur(iterator)) < Cur(iterator) && Cur(iterator) < iterator.tree.size && f(KeyAt(iterator.tree, Cur(iterator)), ValAt(iterator.tree, Cur(iterator)))
+//@     && (forall j :: old(Cur(iterator)) < j && j < Cur(iterator) ==> !f(KeyAt(iterator.tree, j), ValAt(iterator.tree, j)))
+//@   ensures [C08] notfound: !result ==> Cur(iterator) == iterator.tree.size && (forall j :: old(Cur(iterator)) < j && j < iterator.tree.size ==> !f(KeyAt(iterator.tree, j), ValAt(iterator.tree, j)))
+//@   loop 1:
+//@     invariant ItInv(iterator) && old(Cur(iterator)) <= Cur(iterator)
+//@     invariant forall j :: old(Cur(iterator)) < j && j <= Cur(iterator) && j < iterator.tree.size ==> !f(KeyAt(iterator.tree, j), ValAt(iterator.tree, j))
+//@     decreases iterator.tree.size - Cur(iterator)
+
+//@ func Iterator.PrevTo
+//@   requires ItInv(iterator) && f != nil
+//@   modifies iterator.node, iterator.position
+//@   ensures [C08 C17] ItInv(iterator)
+//@   ensures [C08] found: result ==> 0 <= Cur(iterator) && Cur(iterator) < old(Cur(iterator)) && f(KeyAt(iterator.tree, Cur(iterator)), ValAt(iterator.tree, Cur(iterator)))
+//@     && (forall j :: Cur(iterator) < j && j < old(Cur(iterator)) ==> !f(KeyAt(iterator.tree, j), ValAt(iterator.tree, j)))
+//@   ensures [C08] notfound: !result ==> Cur(iterator) == 0 - 1 && (forall j :: 0 <= j && j < old(Cur(iterator)) ==> !f(KeyAt(iterator.tree, j), ValAt(iterator.tree, j)))
+//@   loop 1:
+//@     invariant ItInv(iterator) && Cur(iterator) <= old(Cur(iterator))
+//@     invariant forall j :: Cur(iterator) <= j && j < old(Cur(iterator)) && 0 <= j ==> !f(KeyAt(iterator.tree, j), ValAt(iterator.tree, j))
+//@     decreases Cur(iterator) + 1
